@@ -9,6 +9,7 @@
 #include <GeometryIO.h>
 #include <OMExceptions.H>
 #include <sensors.h>
+#include <assemble.h>
 #include <sys/resource.h>
 #include <sys/stat.h>
 #include <signal.h>
@@ -20,6 +21,23 @@ using namespace OpenMEEG;
 typedef unsigned U;
 
 extern "C" int xerbla_(char*,int*,int) { return 0; }
+
+// Every new[] block carries its size and a 256-byte tail canary: an element access beyond the real storage of a
+// vector/matrix (up to 32 cells) lands in the canary and is detected without a sanitizer.
+static const size_t OM_HDR=16, OM_TAIL=256; static const unsigned char OM_CAN=0xA5;
+void* operator new[](size_t n) {
+    unsigned char* p=(unsigned char*)malloc(OM_HDR+n+OM_TAIL); if (!p) throw std::bad_alloc();
+    *(size_t*)p=n; memset(p+8,OM_CAN,8); memset(p+OM_HDR,0xFF,n); memset(p+OM_HDR+n,OM_CAN,OM_TAIL); return p+OM_HDR;
+}
+void operator delete[](void* q) noexcept { if (q) free((unsigned char*)q-OM_HDR); }
+void operator delete[](void* q,size_t) noexcept { if (q) free((unsigned char*)q-OM_HDR); }
+static size_t block_bytes(const void* q) { return q ? *(const size_t*)((const unsigned char*)q-OM_HDR) : 0; }
+static bool canary_ok(const void* q) {
+    if (!q) return true; const unsigned char* p=(const unsigned char*)q-OM_HDR; size_t n=*(const size_t*)p;
+    for (int i=8;i<16;++i) if (p[i]!=OM_CAN) return false;
+    for (size_t i=0;i<OM_TAIL;++i) if (p[OM_HDR+n+i]!=OM_CAN) return false;
+    return true;
+}
 
 static U getU(Reader& r) { ll v=r.z(); if (v<0 || v>4294967295LL) throw Reader::Malformed(); return (U)v; }
 static std::vector<std::string> split_env(const char* name) {
@@ -245,6 +263,72 @@ static Wire singular(Reader& r) {
     });
 }
 
+
+// ---- state left by a (failed) load: [objkind fmt failclass] -> [status nl nc storage_consistent unchanged canaries_ok] ----
+// objkind 0 Vector(3) 1 Matrix(2,3) 2 SymMatrix(3) ; fmt index {txt,bin,tex,mat} ; failclass 0 file of another kind (bigger),
+// 1 same kind, bigger, truncated to half, 2 same kind under an unknown suffix, 3 missing, 4 empty file, 5 control: same kind, bigger (must load)
+template <typename T> static Wire after_load(T& obj,const std::string& path,size_t expect_cells_fn(const T&)) {
+    const unsigned nl0=obj.nlin(), nc0=obj.ncol(); std::vector<double> v0(obj.data(),obj.data()+obj.size());
+    Wire st=guarded([&]()->Wire { obj.load(path); return Wire{0}; });
+    Wire out{st[0],(ll)obj.nlin(),(ll)obj.ncol()};
+    const size_t cells=expect_cells_fn(obj);
+    const bool consistent = (cells==0) || (obj.data()!=nullptr && block_bytes(obj.data())>=cells*sizeof(double));
+    bool unchanged = obj.nlin()==nl0 && obj.ncol()==nc0 && cells==v0.size();
+    if (unchanged && consistent) for (size_t k=0;k<cells;++k) if (obj.data()[k]!=v0[k]) unchanged=false;
+    out.push_back(consistent); out.push_back(unchanged);
+    return out;
+}
+static size_t cellsV(const Vector& v) { return v.nlin(); }
+static size_t cellsM(const Matrix& m) { return (size_t)m.nlin()*m.ncol(); }
+static size_t cellsS(const SymMatrix& s) { return (size_t)s.nlin()*(s.nlin()+1)/2; }
+static Wire failed_load(Reader& r) {
+    static const char* sfx[]={"txt","bin","tex","mat"};
+    ll kind=r.z(), fmt=r.z(), fc=r.z(); if (kind<0||kind>2||fmt<0||fmt>3||fc<0||fc>5) return Wire{-1};
+    std::string path=std::string("fl_in.")+sfx[fmt]; unlink(path.c_str()); unlink("fl_in.xyz");
+    // the file
+    try {
+        const ll fk = (fc==0) ? (kind+1)%3 : kind;          // kind stored in the file
+        if (fc!=3 && fc!=4) {
+            if (fk==0) { Vector v(7); for (unsigned i=0;i<7;++i) v(i)=10+i; v.save(path); }
+            if (fk==1) { Matrix M(4,5); for (size_t i=0;i<20;++i) M.data()[i]=10+i; M.save(path); }
+            if (fk==2) { SymMatrix S(5u); for (size_t i=0;i<15;++i) S.data()[i]=10+i; S.save(path); }
+        }
+        if (fc==4) { FILE* f=fopen(path.c_str(),"w"); if (f) fclose(f); }
+        if (fc==1) { struct stat st; if (stat(path.c_str(),&st)==0) truncate(path.c_str(),st.st_size/2); }
+        if (fc==2) { rename(path.c_str(),"fl_in.xyz"); path="fl_in.xyz"; }
+    } catch (...) { return Wire{-1}; }
+    Wire out; const void* buf=nullptr; unsigned nl=0,nc=0;
+    auto touch=[&](auto& obj,auto last) {      // element accesses at the reported bounds, through the asserted accessors
+        try { if (obj.nlin()>0 && obj.ncol()>0) { last(obj); } } catch (...) { }
+        out.push_back(canary_ok(obj.data()));
+    };
+    if (kind==0) { Vector v(3); for (unsigned i=0;i<3;++i) v(i)=1+i; out=after_load(v,path,cellsV); touch(v,[](Vector& x){ x(x.nlin()-1)=42.0; volatile double d=x(0); (void)d; }); }
+    if (kind==1) { Matrix M(2,3); for (size_t i=0;i<6;++i) M.data()[i]=1+i; out=after_load(M,path,cellsM); touch(M,[](Matrix& x){ x(x.nlin()-1,x.ncol()-1)=42.0; x(0,x.ncol()-1)=41.0; }); }
+    if (kind==2) { SymMatrix S(3u); for (size_t i=0;i<6;++i) S.data()[i]=1+i; out=after_load(S,path,cellsS); touch(S,[](SymMatrix& x){ x(x.nlin()-1,x.nlin()-1)=42.0; x(0,x.nlin()-1)=41.0; }); }
+    unlink(path.c_str()); unlink("fl_in.xyz");
+    return out;
+}
+
+// ---- public entry points that take a mesh / interface / domain NAME: [entry nameidx] ----
+static Wire named_entry(Reader& r) {
+    static std::vector<std::string> names=split_env("C18_NAMES");
+    ll e=r.z(); size_t k=r.n(); if (k>=names.size()) return Wire{-1};
+    const std::string& q=names[k];
+    return guarded([&]()->Wire {
+        const Geometry& g=geom();
+        Matrix dip(2,6); dip.set(0.0); dip(0,2)=0.3; dip(0,5)=1.0; dip(1,0)=0.2; dip(1,3)=1.0;
+        static Sensors* sens=nullptr; if (!sens && getenv("C18_SENSORS")) sens=new Sensors(getenv("C18_SENSORS"),g);
+        switch (e) {
+        case 0: { Matrix M=DipSourceMat(g,dip,q); return Wire{0,(ll)M.nlin(),(ll)M.ncol()}; }
+        case 1: { Matrix pts(1,3); pts.set(0.0); pts(0,0)=0.1; Matrix M=DipSource2InternalPotMat(g,dip,pts,q); return Wire{0,(ll)M.nlin(),(ll)M.ncol()}; }
+        case 2: { if (!sens) return Wire{-1}; SparseMatrix M=Head2ECoGMat(g,*sens,q); return Wire{0,(ll)M.nlin(),(ll)M.ncol()}; }
+        case 3: { if (!sens) return Wire{-1}; SparseMatrix H=Head2EEGMat(g,*sens); Matrix M=CorticalMat(g,H,q); return Wire{0,(ll)M.nlin(),(ll)M.ncol()}; }
+        case 4: { if (!sens) return Wire{-1}; SparseMatrix H=Head2EEGMat(g,*sens); Matrix M=CorticalMat2(g,H,q); return Wire{0,(ll)M.nlin(),(ll)M.ncol()}; }
+        }
+        return Wire{-1};
+    });
+}
+
 // replay of the refuted accessor theorem: SymMatrix(65536)(0,65535): pinned = write far outside a 256 KB buffer
 static Wire big_sym(Reader& r) {
     U n=getU(r), i=getU(r), j=getU(r);
@@ -269,6 +353,8 @@ int main(int argc,char** argv) {
         case 6: return writer_fault(r);
         case 7: return format_select(r);
         case 8: return singular(r);
+        case 9: return failed_load(r);
+        case 10: return named_entry(r);
         }
         return Wire{-1};
     });
